@@ -32,10 +32,13 @@ EXPLANATION = (
     "type; (iv) for every division/remainder assertion that the divisor interval excludes 0 and -1; (v) the congruence class of the "
     "stored value, required equal to the specification (v, a+b, a-b, -a, a*b) modulo M. M2: OpAssign resolves to Op on (*self, rhs) "
     "and stores the result; Div = Mul with rhs.inv(); inv returns through new; pow combines only with MulAssign from ONE; read = "
-    "new(reader.read::<i64>()); write/Display/Debug print exactly v; PartialEq/Eq derived on v. NOT decided: inv/pow functional "
-    "correctness, (x/y)*y = x."
+    "new(reader.read::<i64>()); write/Display/Debug print exactly v; PartialEq/Eq derived on v. M3 (Bezout invariant of inv): the "
+    "rule finds the pairing of the loop's remainder and coefficient variables for which r - c*self is a multiple of M on entry, checks "
+    "as a polynomial identity (quotient free) that one round keeps both residuals multiples of M, that the remainders follow Euclid's "
+    "step until the divisor is 0, and that new() receives the coefficient of the surviving remainder: result * self == gcd-candidate "
+    "(mod M). NOT decided: that the surviving remainder is gcd(self, M) (number theory), pow as a value statement, (x/y)*y = x."
 )
-UNDECIDED = ["inv() is the modular inverse (Bezout identity of the loop)", "pow() equals the modular power (multiplicative loop invariant)", "(x / y) * y = x for y coprime to M"]
+UNDECIDED = ["that Euclid's remainder sequence ends in gcd(self, M) (number theory; M3 proves result * self == surviving remainder (mod M), which is the inverse exactly when that gcd is 1)", "pow() equals the modular power as a value statement (its square-and-multiply scheme IS checked, M2)", "(x / y) * y = x for y coprime to M (follows from M3 and Div = Mul by inv, not re-proved)"]
 ASSUMPTIONS = ["2 <= M < 2^31 (the property's domain)", "incoming Modular values satisfy the representation invariant (re-established inductively at every construction site)"]
 FIXTURES = [
     ("c06_bad_new_gt", "bad", ["M1"]),
@@ -45,6 +48,8 @@ FIXTURES = [
     ("c06_bad_mulassign_adds", "bad", ["M2"]),
     ("c06_bad_display_i32", "bad", ["M2"]),
     ("c06_good_wide_add", "good", []),
+    ("c06_bad_inv_coeff_sign", "bad", ["M3"]),
+    ("c06_bad_inv_returns_other", "bad", ["M3"]),
 ]
 
 M = ("gparam", "M")
@@ -394,6 +399,7 @@ def _families(col, crate, adt, targets, sfx, modes=None, assign_of=None, A=None)
     else:
         col.violation("M2" + sfx, "%s|through-new" % fk(invb), invb.loc(), "inv() must return through the canonicalising constructor")
         col.obligation(False)
+    _bezout(col, crate, invb, sfx, fk)
     # pow: only MulAssign on values starting from ONE / *self
     powb = util.need_body(crate, "Modular::<M>::pow")
     I = util.analyse(powb)
@@ -524,3 +530,139 @@ def _families(col, crate, adt, targets, sfx, modes=None, assign_of=None, A=None)
         else:
             col.violation("M2" + sfx, "Modular|%s-derived" % tr, "%s:%d" % (adt["span"]["file"], adt["span"]["line"]), "%s for Modular must be the derived structural one (on the canonical representative)" % tr)
             col.obligation(False)
+
+
+
+def _strip_int_casts(t):
+    """IntToInt casts and integer From/Into conversions are the identity for this rule (ranges and overflow are
+    M1's obligations); a % b is written a - (a / b) * b so that both spellings of Euclid's step agree"""
+    if not isinstance(t, tuple) or not t:
+        return t
+    if t[0] == "cast" and len(t) > 3 and t[1] == "IntToInt":
+        return _strip_int_casts(t[3])
+    if t[0] == "call" and str(t[1]).split("::")[-1] in ("from", "into") and ("convert::From" in str(t[1]) or "convert::Into" in str(t[1]) or str(t[1]).startswith("<i") or str(t[1]).startswith("<u")):
+        args = [a for a in t[2] if not (isinstance(a, tuple) and a and a[0] == "mem")]
+        if len(args) == 1:
+            return _strip_int_casts(args[0])
+    if t[0] == "bin" and t[1] == "Rem":
+        a, b = _strip_int_casts(t[2]), _strip_int_casts(t[3])
+        return ("bin", "Sub", a, ("bin", "Mul", ("bin", "Div", a, b), b))
+    if not isinstance(t[0], str):
+        return tuple(_strip_int_casts(x) for x in t)
+    return tuple(_strip_int_casts(x) if isinstance(x, tuple) else x for x in t)
+
+
+def _bezout(col, crate, invb, sfx, fk):
+    """M3: inv() is the extended Euclid loop with its Bezout invariant.  The loop carries remainders r_i and
+    coefficients c_i; the rule *finds* the pairing (r, c) for which r - c*v is a multiple of M on entry
+    (v = self's representative), checks that one round keeps every such residual a multiple of M as a
+    polynomial identity (the quotient is a free variable), that the remainders follow Euclid's step
+    (r_old_divisor, r_dividend - q * r_divisor or r_dividend % r_divisor), that the loop ends when the
+    divisor remainder is 0 and that the coefficient of the OTHER remainder is returned through new().
+    Then  returned * v == gcd(v, M)  (mod M): the modular inverse whenever v is coprime to M."""
+    from ..polyid import Poly, Translator
+    from ..absint import strip_mem
+    import itertools
+
+    col.rule("M3" + sfx, "inv(): extended-Euclid loop keeps r == c*v (mod M) for both remainder/coefficient pairs and returns the coefficient of the surviving remainder", floor=3)
+    helpers = [m for m in crate.bodies if not m.is_closure and m.kind in ("Fn", "AssocFn") and m.vis != "pub" and not util.self_recursive(m)]
+    I = util.analyser(helpers)(invb)
+    key = "%s|bezout" % fk(invb)
+    if len(I.loops) != 1 or not I.backedge_states:
+        col.violation("M3" + sfx, key + "|loop", invb.loc(), "inv() is not a single extended-Euclid loop: the Bezout invariant cannot be established")
+        return
+    head = list(I.loops)[0]
+    entries = I.loop_entry.get(head, [])
+    backs = I.backedge_states.get(head, [])
+    if len(entries) != 1 or not backs:
+        col.violation("M3" + sfx, key + "|loop", invb.loc(), "inv(): cannot read the loop's entry values")
+        return
+    entry = {l: _strip_int_casts(v) for l, v in entries[0].items()}
+    uidh = I.uid(head)
+    T = Translator()
+    selfp = ("deref", ("param", 1, I.names.get(1)))
+    V = None
+    for l, v in entry.items():
+        if isinstance(v, tuple) and v and v[0] == "load" and strip_mem(v[2]) == strip_mem(("field", selfp, 0)):
+            V = T.poly(v)
+    Mv = ("gparam", "M")
+    Mp = T.poly(Mv)
+    if V is None:
+        col.violation("M3" + sfx, key + "|loop", invb.loc(), "inv(): no loop variable starts as self's representative")
+        return
+
+    def phi(l):
+        return ("phi", uidh, l)
+
+    def mult_of_M(p):
+        """every monomial of p contains M (p is 0 modulo M as a polynomial)"""
+        return all(any(var == strip_mem(Mv) or var == Mv for var, _ in mono) for mono in p.t)
+
+    carried = sorted(l for l in entry if any(strip_mem(_strip_int_casts(bs.env.get(l))) != strip_mem(phi(l)) for bs in backs if bs.env.get(l) is not None))
+    ints = [l for l in carried if str(invb.locals[l]["ty"]) in ("i32", "i64", "i128", "isize", "u32", "u64")]
+    pairs = []
+    for r, c in itertools.permutations(ints, 2):
+        res0 = T.poly(entry[r]) - T.poly(entry[c]) * V
+        if res0.is_zero() or mult_of_M(res0):
+            # the trivial pairing 0 - 0*v is excluded: the coefficient must be able to become non-zero
+            pairs.append((r, c))
+    # two disjoint pairs covering four carried variables
+    sol = None
+    for (p1, p2) in itertools.combinations(pairs, 2):
+        if len({p1[0], p1[1], p2[0], p2[1]}) == 4 and {p1[0], p2[0]}.isdisjoint({p1[1], p2[1]}):
+            # remainders are the variables tested / divided, coefficients are never divided by
+            sol = (p1, p2)
+            cand_ok = True
+            for bs in backs:
+                sub = {strip_mem(phi(r)): None for r in ()}
+                for (r, c) in (p1, p2):
+                    newr = T.poly(_strip_int_casts(bs.env[r])) - T.poly(_strip_int_casts(bs.env[c])) * V
+                    # assume the old residuals vanish: r := c*v
+                    for (r2, c2) in (p1, p2):
+                        newr = newr.subst(strip_mem(phi(r2)), Poly.var(strip_mem(phi(c2))) * V)
+                    if not (newr.is_zero() or mult_of_M(newr)):
+                        cand_ok = False
+            if cand_ok:
+                break
+            sol = None
+    if sol is None:
+        col.violation("M3" + sfx, key + "|invariant", invb.loc(), "inv(): no pairing of the loop's remainders r and coefficients c keeps r == c * self (mod M) through one round (entry values %s): the returned value is not a Bezout coefficient of self" % {invb.local_names().get(l, "_%d" % l): tstr(entry[l]) for l in ints})
+        return
+    (r1, c1), (r2, c2) = sol
+    nm = lambda l: invb.local_names().get(l) or "_%d" % l
+    col.ok("M3" + sfx, invb.loc(head), key + "|invariant", "%s == %s*v and %s == %s*v (mod M) hold on entry and are preserved by every round (polynomial identity, quotient free)" % (nm(r1), nm(c1), nm(r2), nm(c2)))
+    # Euclid's step on the remainders, exit when the divisor remainder is 0
+    fin = I.final_states
+    zero_r = None
+    for st in fin:
+        for f in st.facts:
+            t = f[1]
+            if isinstance(t, tuple) and t and t[0] == "bin" and t[1] in ("Ne", "Eq") and t[3] == mk_int(0) and strip_mem(_strip_int_casts(t[2])) in (strip_mem(phi(r1)), strip_mem(phi(r2))):
+                is_zero = (t[1] == "Eq") == bool(f[2]) if f[0] == "eq" else None
+                if is_zero:
+                    zero_r = r1 if strip_mem(_strip_int_casts(t[2])) == strip_mem(phi(r1)) else r2
+    step_ok = zero_r is not None
+    if step_ok:
+        other_r = r2 if zero_r == r1 else r1
+        d_, n_ = Poly.var(strip_mem(phi(zero_r))), Poly.var(strip_mem(phi(other_r)))
+        for bs in backs:
+            news = [T.poly(_strip_int_casts(bs.env[zero_r])), T.poly(_strip_int_casts(bs.env[other_r]))]
+            q = T.poly(("bin", "Div", phi(other_r), phi(zero_r)))
+            want_small = [n_ - q * d_]
+            ok_here = any((news[k] - d_).is_zero() and any((news[1 - k] - w).is_zero() for w in want_small) for k in (0, 1))
+            step_ok = step_ok and ok_here
+    if step_ok:
+        col.ok("M3" + sfx, invb.loc(head), key + "|euclid-step", "(divisor, dividend) -> (dividend - q*divisor, divisor) with q = dividend / divisor; the loop ends when the divisor is 0")
+    else:
+        col.violation("M3" + sfx, key + "|euclid-step", invb.loc(head), "inv(): the remainders do not follow Euclid's step (dividend - (dividend / divisor) * divisor, divisor) until the divisor is 0: the surviving remainder is not gcd(self, M)")
+    # the coefficient of the surviving remainder is what new() receives
+    ret_ok = bool(fin) and zero_r is not None
+    surv_c = (c2 if zero_r == r1 else c1) if zero_r is not None else None
+    for st in fin:
+        r = util.ret_term(st)
+        a0 = _strip_int_casts(r[2][0]) if r[0] == "call" and r[2] else None
+        ret_ok = ret_ok and a0 is not None and strip_mem(a0) == strip_mem(phi(surv_c))
+    if ret_ok:
+        col.ok("M3" + sfx, invb.loc(), key + "|returns-coefficient", "returns new(%s), the coefficient paired with the surviving remainder: result * self == gcd(self, M) (mod M)" % nm(surv_c))
+    else:
+        col.violation("M3" + sfx, key + "|returns-coefficient", invb.loc(), "inv() does not return the Bezout coefficient of the surviving remainder")
